@@ -1,4 +1,4 @@
-//go:build all || c06 || c08 || c19
+//go:build all || c05 || c06 || c08 || c19
 
 package props
 
@@ -49,6 +49,15 @@ func c06Check(f genFile, loaders []string) (kind, msg, loader string) {
 			return "basic", fmt.Sprintf("%s.Load of %s: basic metadata %dx%d, want %dx%d", loader, f.Name, md.PixelWidth, md.PixelHeight, f.Truth.W, f.Truth.H), loader
 		}
 		data, err := iccDataOf(md)
+		// the accessors may be used in any order and any number of times: asking for the parsed
+		// profile (which may well fail - the payload is arbitrary) must not change the raw bytes
+		func() {
+			defer func() { _ = recover() }()
+			_, _ = md.ICCProfile()
+		}()
+		if data2, err2 := iccDataOf(md); !bytes.Equal(data, data2) || (data == nil) != (data2 == nil) || (err == nil) != (err2 == nil) {
+			return "accessor-order", fmt.Sprintf("%s: %s: ICCProfileData() returned (%d bytes, %v) before and (%d bytes, %v) after a call of ICCProfile()", loader, f.Name, len(data), err, len(data2), err2), loader
+		}
 		switch f.Truth.ICCState {
 		case "ok":
 			if err != nil {
